@@ -41,6 +41,8 @@ def combineList : List Theory → Theory
 
 /-- `t.integer_arithmetic = True; t.integer_difference = True` -/
 def withInt (t : Theory) : Theory := { t with integer_arithmetic := true, integer_difference := true }
+/-- `Theory(integer_arithmetic=True, integer_difference=True)` -/
+def intTheory : Theory := { T0 with integer_arithmetic := true, integer_difference := true }
 /-- `t.uninterpreted = True` -/
 def withUF (t : Theory) : Theory := { t with uninterpreted := true }
 /-- `t.arrays = True; t.arrays_const = True` -/
@@ -59,6 +61,16 @@ def isZero : Term → Bool
   | _ => false
 
 def hasFreeVars (t : Term) : Bool := !t.fv.isEmpty
+
+/-- `walk_div` up to its last statement: the divisor alone decides linearity (F21b repair) -/
+def divCore (args : List Term) (ths : List Theory) : Theory :=
+  let t := foldCombine ths
+  match args, ths with
+  | [_, d], [_, td] =>
+      if hasFreeVars d then t.set_linear false
+      else if isZero d then t.set_linear false
+      else t.combine td
+  | _, _ => t
 
 /-- one `walk_*` rule: the node (operator, payload, argument terms) and its children's theories -/
 def rule (op : Op) (p : Payload) (args : List Term) (ths : List Theory) : Theory :=
@@ -80,9 +92,9 @@ def rule (op : Op) (p : Payload) (args : List Term) (ths : List Theory) : Theory
       withUF r
   -- walk_toreal
   | .toReal => (ths.headD T0).set_lira true
-  -- walk_str_int
+  -- walk_str_int (combines with the Int theory since the F50 repair; used to overwrite the two flags)
   | .strLength | .strIndexOf | .strToInt =>
-      withInt (combineList ths)
+      (combineList ths).combine intTheory
   -- walk_bv_tonatural
   | .bvToNatural => withInt (ths.headD T0).copy
   -- walk_times
@@ -91,7 +103,7 @@ def rule (op : Op) (p : Payload) (args : List Term) (ths : List Theory) : Theory
       let t := if (args.filter hasFreeVars).length > 1 then t.set_linear false else t
       t.set_difference_logic false
   -- walk_pow
-  | .pow => (ths.headD T0).set_linear false
+  | .pow => ((ths.headD T0).set_linear false).set_difference_logic false
   -- walk_plus
   | .plus => (foldCombine ths).set_difference_logic false
   -- walk_strings (INT_TO_STR since the F21a repair)
@@ -103,15 +115,8 @@ def rule (op : Op) (p : Payload) (args : List Term) (ths : List Theory) : Theory
         | .ty idx => t.combine (theoryFromType idx)
         | _ => t
       withConstArrays t
-  -- walk_div (divisor alone decides since the F21b repair)
-  | .div =>
-      let t := foldCombine ths
-      (match args, ths with
-       | [_, d], [_, td] =>
-           if hasFreeVars d then t.set_linear false
-           else if isZero d then t.set_linear false
-           else t.combine td
-       | _, _ => t)
+  -- walk_div; its final `set_difference_logic(False)` used to be dead code after a `return` (repaired)
+  | .div => (divCore args ths).set_difference_logic false
   -- walk_quantifier (F21c repair)
   | .forall_ | .exists_ =>
       let t := ths.headD T0
